@@ -244,6 +244,18 @@ def _(eng, ci, a, sp):
 DURATION_MAX_NS = (2 ** 64 - 1) * 1000000000 + 999999999
 
 
+@S('<Duration as AddAssign>::add_assign')
+def _(eng, ci, a, sp):
+    """Duration += Duration: checked addition, panics on overflow like core::time::Duration"""
+    r = a[0]
+    x = tval(r.get().f[0]) + tval(deref_all(a[1]).f[0])
+    over = (x > DURATION_MAX_NS) if isinstance(x, int) else eng.branch(x > DURATION_MAX_NS, 'duration overflow')
+    if over:
+        raise Panic('overflow when adding durations', sp)
+    r.set(dur(x))
+    return UNIT
+
+
 def dur_mul(eng, d, k, sp):
     """Duration * u32 / *= u32: checked multiplication, panics on overflow like core::time::Duration"""
     k = eng.concrete(k, 'duration factor')
